@@ -525,6 +525,7 @@ int parse_instruction_stm8(AsmContext *asm_context, char *instr)
           else
         {
           print_error_unexp(asm_context, token);
+          return -1;
         }
 
         if (skip_case == 0)
